@@ -22,12 +22,12 @@ impl fmt::Display for Pos {
     }
 }
 
-/// `val` of Syntax.v. Tokens are `char`s.
+/// `val` of Syntax.v. Tokens are stored as their number (`char as u32` / `u8 as u32`), see `HTok`.
 #[derive(Clone, Debug, PartialEq, Default)]
 pub enum Val {
     #[default]
     Unit,
-    Tok(char),
+    Tok(u32),
     Nat(usize),
     Pair(Box<Val>, Box<Val>),
     List(Vec<Val>),
@@ -48,8 +48,11 @@ impl Val {
     pub fn opt(o: Option<Val>) -> Val {
         Val::Opt(o.map(Box::new))
     }
-    pub fn toks<T: IntoIterator<Item = char>>(ts: T) -> Val {
-        Val::List(ts.into_iter().map(Val::Tok).collect())
+    pub fn tok<T: HTok>(t: T) -> Val {
+        Val::Tok(t.to_u32())
+    }
+    pub fn toks<T: HTok, C: IntoIterator<Item = T>>(ts: C) -> Val {
+        Val::List(ts.into_iter().map(|t| Val::Tok(t.to_u32())).collect())
     }
 
     /// Canonical printing (FORMAT.md, `val`).
@@ -57,7 +60,7 @@ impl Val {
         match self {
             Val::Unit => out.push('U'),
             Val::Tok(t) => {
-                let _ = write!(out, "T{}", *t as u32);
+                let _ = write!(out, "T{}", *t);
             }
             Val::Nat(n) => {
                 let _ = write!(out, "N{n}");
@@ -98,6 +101,42 @@ impl Val {
     }
 }
 
+// ---------- tokens ----------
+
+/// The token types of the input kinds: `char` (most kinds) and `u8` (`bytes`, `io`).
+/// Everywhere outside the chumsky parsers themselves a token is its number.
+pub trait HTok: Copy + PartialEq + std::fmt::Debug + 'static {
+    fn from_u32(n: u32) -> Option<Self>;
+    fn to_u32(self) -> u32;
+    /// The tokens of an AST node (validated when the case was read).
+    fn seq(ts: &[u32]) -> Vec<Self> {
+        ts.iter().map(|&n| Self::from_u32(n).expect("token validated by ast::parse_case")).collect()
+    }
+    /// `val_toks(ctx)` as tokens of this type. A context value can only contain tokens that were validated
+    /// when the case was read or that came out of the input, so the conversion cannot fail.
+    fn ctx_seq(v: &Val) -> Vec<Self> {
+        Self::seq(&val_toks(v))
+    }
+}
+
+impl HTok for char {
+    fn from_u32(n: u32) -> Option<char> {
+        char::from_u32(n)
+    }
+    fn to_u32(self) -> u32 {
+        self as u32
+    }
+}
+
+impl HTok for u8 {
+    fn from_u32(n: u32) -> Option<u8> {
+        u8::try_from(n).ok()
+    }
+    fn to_u32(self) -> u32 {
+        self as u32
+    }
+}
+
 // ---------- closure language ----------
 
 #[derive(Clone, Debug, PartialEq)]
@@ -114,8 +153,8 @@ pub enum Fn1 {
 pub enum Pred {
     True,
     False,
-    TokIn(Vec<char>),
-    TokNotIn(Vec<char>),
+    TokIn(Vec<u32>),
+    TokNotIn(Vec<u32>),
 }
 
 #[derive(Clone, Copy, Debug, PartialEq)]
@@ -127,7 +166,7 @@ pub enum Mw {
     Slice,
 }
 
-pub fn first_tok(v: &Val) -> Option<char> {
+pub fn first_tok(v: &Val) -> Option<u32> {
     match v {
         Val::Tok(t) => Some(*t),
         Val::Pair(a, b) => first_tok(a).or_else(|| first_tok(b)),
@@ -155,7 +194,7 @@ pub fn ap1(f: &Fn1, v: Val) -> Val {
     }
 }
 
-pub fn mem_n(t: char, l: &[char]) -> bool {
+pub fn mem_n(t: u32, l: &[u32]) -> bool {
     l.iter().any(|x| *x == t)
 }
 
@@ -188,8 +227,8 @@ pub fn apmw(f: Mw, v: Val, sp: (Pos, Pos), sl: (Pos, Pos), ust: u64, ctx: &Val) 
     }
 }
 
-pub fn val_toks(v: &Val) -> Vec<char> {
-    fn go(v: &Val, out: &mut Vec<char>) {
+pub fn val_toks(v: &Val) -> Vec<u32> {
+    fn go(v: &Val, out: &mut Vec<u32>) {
         match v {
             Val::Tok(t) => out.push(*t),
             Val::List(l) => l.iter().for_each(|x| go(x, out)),
